@@ -379,3 +379,14 @@ Proof.
     + rewrite map_map. apply map_ext_in. intros v Hv. unfold pick. apply Nat.ltb_ge in E1.
       assert (j = 0) by lia. subst. destruct (length (elems v) =? 1); reflexivity.
 Qed.
+
+(* "everything else is broadcast" fails for a companion of another length that holds sub-lists of the matching length:
+   loop(list)(f)([1,2], [[1,2],[3,4],[5,6]]) hands [1,3,5] (not the companion) to the first leaf *)
+Theorem broadcast_refuted :
+  exists (l : list val) (i n : nat), length l <> n /\ item_by_i (VList l) i n <> VList l /\
+    forall f : leaf_fun, get (wrapped f (VList [VLeaf 1; VLeaf 2]) [VList l] []) [SI i] =
+                         Some (f (VLeaf 1) [VList [VLeaf 1; VLeaf 3; VLeaf 5]] []).
+Proof.
+  exists [VList [VLeaf 1; VLeaf 2]; VList [VLeaf 3; VLeaf 4]; VList [VLeaf 5; VLeaf 6]], 0, 2.
+  split; [simpl; lia|]. split; [vm_compute; discriminate|]. intros f. reflexivity.
+Qed.
